@@ -13,6 +13,9 @@ const SIGMA_LEX: &[&str] = &[
 ];
 const SIGMA_NUM: &[&str] = &["0", "1", "9", "-", "+", ".", "e", "E", "a", " "];
 const SIGMA_STR: &[&str] = &["\"", "\\", "u", "0", "8", "D", "F", "n", "x", "a", "é", "\n"];
+// the four hex digits of one `\u` escape: every boundary of the surrogate block (D7FF|D800, DBFF|DC00,
+// DFFF|E000) is spelled by these digits
+const SIGMA_ESC: &[&str] = &["\"", "0", "7", "8", "B", "C", "D", "d", "E", "F", "f", "x"];
 const SIGMA_BLK: &[&str] = &["\"", "\\", " ", "\t", "\n", "\r", "a", "é", "\u{feff}"];
 /// punctuators, spread, names next to numbers, multi-byte and unknown characters
 const SIGMA_PUN: &[&str] = &[
@@ -187,6 +190,7 @@ fn main() {
         Space { name: "lex", alphabet: SIGMA_LEX, prefix: "", quick: 4, thorough: 6 },
         Space { name: "num", alphabet: SIGMA_NUM, prefix: "", quick: 6, thorough: 8 },
         Space { name: "str", alphabet: SIGMA_STR, prefix: "\"", quick: 5, thorough: 7 },
+        Space { name: "esc", alphabet: SIGMA_ESC, prefix: "\"\\u", quick: 5, thorough: 6 },
         Space { name: "blk", alphabet: SIGMA_BLK, prefix: "\"\"\"", quick: 6, thorough: 8 },
         Space { name: "pun", alphabet: SIGMA_PUN, prefix: "", quick: 4, thorough: 5 },
     ];
